@@ -97,8 +97,26 @@ def run(ctx):
         traces += 1
         if i < 2:
             samples += [l[:160] for l in out.split('\n') if l.startswith(('PUB', 'GET'))][:3]
+    # "no request prevents the endpoint from answering later requests": connections that ask for a 48 MB
+    # asset and never read; a later request must be answered within 3 s and a publication must not block
+    stalls = [(1, 0), (4, 0), (2, 1)] if tier == 'quick' else [(1, 0), (2, 0), (4, 0), (8, 0), (12, 0), (1, 1), (4, 1), (12, 1)]
+    for k, v6 in stalls:
+        rc, out = core.run([core.BSH, 'http-stall', str(k), str(v6)], timeout=120)
+        evaluations += 1
+        m = re.search(r'^STALL readers=(\d+) small_get=(\S+) publish_ms=(\S+)$', out, re.M)
+        origin = dict(cmd='http-stall', readers=k, ipv6=v6)
+        if rc != 0 or not m:
+            failures.append(dict(signature='stall-probe-failed', origin=origin, what='bsh http-stall %d %d failed: %s' % (k, v6, out[-200:])))
+        elif m.group(2) != '200:010203':
+            failures.append(dict(signature='stalled-reader-blocks-endpoint', origin=origin,
+                                 what='%d connection(s) requested a large asset and did not read it: a later GET of a published 3-byte asset got %s' % (k, m.group(2))))
+        elif m.group(3) == 'timeout':
+            failures.append(dict(signature='stalled-reader-blocks-publication', origin=origin,
+                                 what='%d connection(s) requested a large asset and did not read it: serve_audio did not return within 3 s' % k))
+        else:
+            nontrivial.add(('stall', str(k), str(v6)))
     return dict(evaluations=evaluations, distinct_nontrivial=len(nontrivial),
-                rule='operations (publish / raw-socket request) over %d endpoint histories (every third on ::1); non-trivial = distinct (history, published key, status, length mode) among requests for published assets' % nruns,
+                rule='operations (publish / raw-socket request) over %d endpoint histories (every third on ::1), plus stalled-reader probes (connections that never read a 48 MB answer: later requests and publications must go on); non-trivial = distinct (history, published key, status, length mode) among requests for published assets' % nruns,
                 samples=samples, diffs=diffs, failures=failures, traces=traces,
                 trusted_base=['modelled, not verified: tiny_http request parsing / transfer encoding, acceptor+responder threads, sockets, lock poisoning (449 branch never exercised)',
                               'Uuid::parse_str / to_string modelled by Http/UuidText.v (validated by this correspondence)'],
@@ -110,8 +128,11 @@ def search(ctx, broken):
     found = []
     for i in range(40):
         s = 777000 + ctx['seed'] * 100 + i
-        path, out, d = one(s, 80, i % 3 == 2, True)
-        f, _ = oracle(out, dict(cmd='http', seed=s, ops=80, ipv6=(i % 3 == 2), trace=path))
+        # long histories: the endpoint answers from sixteen threads, a defect that takes one of them down per
+        # request shows only after that many such requests
+        ops = 80 if i % 2 == 0 else 400
+        path, out, d = one(s, ops, i % 3 == 2, True)
+        f, _ = oracle(out, dict(cmd='http', seed=s, ops=ops, ipv6=(i % 3 == 2), trace=path))
         if f:
             found += f
             break
